@@ -149,7 +149,7 @@ def run(tier="quick", seed=0, replay_path=None):
                 if o["label"] == label:
                     kn = k
             pub = {"q": c["q"], "sc": c["sc"], "dseed": c["dseed"], "np": c["np"], "knobs": [kn] if kn else [], "kw": to_kwargs(kn) if kn else {},
-                   "ops": rel.ops_of(c["q"]), "groupby_fs": rel.groupby_fs(c["q"]), "how": merge_how(c["q"]), "label": label}
+                   "ops": rel.ops_of(c["q"]), "groupby_fs": rel.groupby_fs(c["q"]), "how": merge_how(c["q"]), "label": label, "errmsg": tr["msgs"].get(label, "")}
             chk.fail(cl if label else clause, pub, {"msg": tr["msgs"].get(label, "")})
     for tr in good[2:300:120]:
         chk.sample({"q": tr["q"], "labels": [o["label"] for o in tr["obs"]][:6]})
